@@ -427,7 +427,7 @@ pub fn run(r: &Runner) {
     built.sort_by_key(|(v, _)| VARIANTS.iter().position(|x| x.name == v.name));
     // corpus
     let t0 = std::time::Instant::now();
-    let cases = gen_corpus(r, r.amount(150_000, 3_000_000) as usize);
+    let cases = gen_corpus(r, r.amount(300_000, 5_000_000) as usize);
     let corpus = format!("{}/corpus.bin", c13_dir());
     write_corpus(&corpus, &cases);
     let sub_n = 3000.min(cases.len());
